@@ -617,8 +617,6 @@ def check(facts, rep, tier, cfg):
                         "can end the client at once (or the reverse)" % badsite[1])
             else:
                 rep.ok("C19.R11", key, where, "closure mapper: all %d constructed errors carry the mapped error" % nagg)
-    if "client" in crate.features:
-        rep.floor("C19.R11", "error conversions on the connect path", k11, 2)
     # R11 (match form): a client Error built on the Err edge of a fallible call carries that call's error
     for b in crate.bodies:
         if "/src/client/ws_connect.rs" not in b.file:
@@ -650,12 +648,15 @@ def check(facts, rep, tier, cfg):
                 pay = set(x[4] for o in s["rv"]["ops"] for x in walk(tr.operand(o)) if x.kind == "call")
                 where = "%s (%s)" % (loc_str(s["loc"]), b.path)
                 key = "wraps-original/%s/Error::%s" % (b.path.split("::{")[0], s["rv"]["agg"]["variant"])
+                k11 += 1
                 if pay & doms:
                     rep.ok("C19.R11", key, where, "built from the failed call's own error")
                 else:
                     rep.bad("C19.R11", key, where,
                             "`Error::%s` is built on the failure edge of a call but not from that call's error: the original error (and its "
                             "retryable/fatal class) is replaced" % s["rv"]["agg"]["variant"])
+    if "client" in crate.features:
+        rep.floor("C19.R11", "error conversions on the connect path", k11, 2)       # map_err mappers + constructions on an Err edge
     # ---- R8 (io kinds, wildcard arms): the classification of std::io::Error by kind, evaluated per kind over the CFG
     r8_io_kinds(facts, rep, crate)
 
